@@ -19,6 +19,7 @@ import (
 	"strconv"
 	"strings"
 	"sync"
+	"sync/atomic"
 	"time"
 
 	"github.com/golang/protobuf/proto"
@@ -62,23 +63,82 @@ func (s *store) put(fid string, b []byte) {
 
 var srvURL string
 
+// fault injection (miss-mode reads): while faultKind != "" every request for a file id in faultSet fails
+// "404" -> 404 ; "500" -> 500 (the client retries for ~13 s) ; "cut.k" -> full Content-Length, a strict prefix of the body, connection dropped
+var faultMu sync.RWMutex
+var faultSet = map[string]bool{}
+var faultKind string
+var reqStarted, reqServed, lookups int64
+
+func setFaults(kind string, fids map[string]bool) {
+	faultMu.Lock()
+	faultKind, faultSet = kind, fids
+	faultMu.Unlock()
+}
+
 func serve(w http.ResponseWriter, r *http.Request) {
+	atomic.AddInt64(&reqStarted, 1)
+	defer atomic.AddInt64(&reqServed, 1)
 	fid := strings.TrimPrefix(r.URL.Path, "/")
 	b := getStore().get(fid)
 	if b == nil {
 		http.NotFound(w, r)
 		return
 	}
+	faultMu.RLock()
+	kind, bad := faultKind, faultSet[fid]
+	faultMu.RUnlock()
+	if bad && kind != "" {
+		switch {
+		case kind == "404":
+			http.NotFound(w, r)
+			return
+		case kind == "500":
+			http.Error(w, "injected", 500)
+			return
+		case strings.HasPrefix(kind, "cut."):
+			k, _ := strconv.Atoi(kind[4:])
+			k = k % len(b) // a strict prefix
+			conn, buf, err := w.(http.Hijacker).Hijack()
+			if err != nil {
+				panic(err)
+			}
+			buf.WriteString("HTTP/1.1 200 OK\r\nContent-Type: application/octet-stream\r\n")
+			buf.WriteString("Content-Length: " + strconv.Itoa(len(b)) + "\r\n\r\n")
+			buf.Write(b[:k])
+			buf.Flush()
+			conn.Close()
+			return
+		}
+	}
 	http.ServeContent(w, r, "", time.Time{}, bytes.NewReader(b))
 }
 
-func lookup(fileId string) ([]string, error) { return []string{srvURL + "/" + fileId}, nil }
+// quiesce waits until no chunk fetch (e.g. a prefetch goroutine of the reader) is in flight
+func quiesce() {
+	stable := 0
+	for i := 0; i < 2000 && stable < 3; i++ {
+		l, a, b := atomic.LoadInt64(&lookups), atomic.LoadInt64(&reqStarted), atomic.LoadInt64(&reqServed)
+		time.Sleep(2 * time.Millisecond)
+		if a == b && l <= a && l == atomic.LoadInt64(&lookups) && a == atomic.LoadInt64(&reqStarted) {
+			stable++
+		} else {
+			stable = 0
+		}
+	}
+}
+
+func lookup(fileId string) ([]string, error) {
+	atomic.AddInt64(&lookups, 1)
+	return []string{srvURL + "/" + fileId}, nil
+}
 
 type lookupHolder struct{}
 
 func (lookupHolder) GetLookupFileIdFunction() wdclient.LookupFileIdFunctionType { return lookup }
 
-// fakeCache: mode 0 whole-chunk hits, mode 1 slice hits, mode 2 misses (the reader fetches over HTTP and SetChunk()s)
+// fakeCache: mode 0 whole-chunk hits, mode 1 slice hits, mode 2 misses (the reader fetches over HTTP and SetChunk()s),
+// mode 3 misses and never retains anything
 type fakeCache struct {
 	sync.Mutex
 	mode int
@@ -87,6 +147,9 @@ type fakeCache struct {
 }
 
 func (c *fakeCache) GetChunk(fileId string, minSize uint64) []byte {
+	if c.mode == 3 {
+		return nil
+	}
 	if c.mode == 2 {
 		c.Lock()
 		defer c.Unlock()
@@ -351,6 +414,68 @@ func opRd(fs int64, fill int, mode int, wins string, ns []*node) {
 			}
 			out = append(out, fmt.Sprintf("%d:%s:%s", n, e, hx.Hex(p)))
 		}
+		rdr.Close()
+		return out
+	}))
+}
+
+func readTok(rdr *filer.ChunkReadAt, w [2]int64, fill int) string {
+	p := make([]byte, w[1])
+	for i := range p {
+		p[i] = byte(fill)
+	}
+	n, err := rdr.ReadAt(p, w[0])
+	e := "0"
+	if err == io.EOF {
+		e = "1"
+	} else if err != nil {
+		e = "2"
+	}
+	return fmt.Sprintf("%d:%s:%s", n, e, hx.Hex(p))
+}
+
+// rf: reads with fetch faults.  The reader always misses the cache (mode 2 retains fetched chunks, mode 3 does not).
+// Phase 1: every fetch of a chunk whose cookie is in `faulty` fails in the way `kind` says; ReadAt for wins1.
+// Phase 2: the server is healthy again; the SAME reader reads wins2.   Output: views, phase-1 results, "|", phase-2 results.
+func opRf(fs int64, fill int, mode int, kind string, faulty string, wins1, wins2 string, ns []*node) {
+	tr.Op("rf", append([]string{hx.I(fs), hx.I(int64(fill)), hx.I(int64(mode)), kind, faulty, wins1, wins2}, nodesTokens(ns)...), hx.Guard(func() []string {
+		resetStore()
+		setFaults("", nil)
+		defer setFaults("", nil)
+		cs := build(ns)
+		views := filer.ViewFromChunks(lookup, cs, 0, math.MaxInt64)
+		bad := map[string]bool{}
+		if faulty != "-" {
+			want := map[string]bool{}
+			for _, c := range strings.Split(faulty, ",") {
+				want[c] = true
+			}
+			var mark func(ns []*node)
+			mark = func(ns []*node) {
+				for _, n := range ns {
+					if n.manifest {
+						mark(n.children)
+					} else if want[strconv.FormatUint(uint64(n.cookie), 10)] {
+						bad[n.fid()] = true
+					}
+				}
+			}
+			mark(ns)
+		}
+		cache := &fakeCache{mode: mode, s: getStore(), set: map[string][]byte{}}
+		rdr := filer.NewChunkReaderAtFromClient(lookup, views, cache, fs)
+		out := []string{viewsTok(views)}
+		setFaults(kind, bad)
+		for _, w := range parseWins(wins1) {
+			out = append(out, readTok(rdr, w, fill))
+		}
+		quiesce()
+		setFaults("", nil)
+		out = append(out, "|")
+		for _, w := range parseWins(wins2) {
+			out = append(out, readTok(rdr, w, fill))
+		}
+		quiesce()
 		rdr.Close()
 		return out
 	}))
@@ -797,6 +922,59 @@ func main() {
 		}
 		opTie(ns)
 	}
+	// ---- fetch faults on cache misses: every list of 2 intervals over 0..5 (thorough: 3 over 0..4), every non-empty set of
+	// failing chunks, every window during the fault, the whole file after recovery
+	{
+		k, p := 2, 5
+		if a.Thorough() {
+			k, p = 3, 4
+		}
+		exhaustive(k, p, func(ns []*node, idx int) {
+			for sub := 1; sub < 1<<uint(k); sub++ {
+				if !a.Thorough() && (idx+sub)%2 == 1 {
+					continue
+				}
+				var f []string
+				for j := 0; j < k; j++ {
+					if sub&(1<<uint(j)) != 0 {
+						f = append(f, strconv.Itoa(j+1))
+					}
+				}
+				kind := []string{"404", "cut.0", "cut.1", "404", "cut.2"}[(idx+sub)%5]
+				fill := []int{0, 238}[(idx/3)%2]
+				opRf(int64(p+1), fill, 2+(idx+sub)%2, kind, strings.Join(f, ","), fmt.Sprintf("all.%d", p+1), fmt.Sprintf("0+%d_1+%d_0+%d", p+1, p, p+1), ns)
+			}
+		})
+	}
+	for i := 0; i < a.N(150); i++ {
+		n := 1 + g.r.Intn(10)
+		ns := g.randList(n, 40, 1+g.r.Intn(15), g.r.Bool())
+		flat := ns
+		if g.r.Chance(1, 3) {
+			ns = g.manifestize(ns, 1+g.r.Intn(2))
+		}
+		var f []string
+		for _, d := range flat {
+			if g.r.Chance(1, 3) {
+				f = append(f, strconv.FormatUint(uint64(d.cookie), 10))
+			}
+		}
+		faulty := "-"
+		if len(f) > 0 {
+			faulty = strings.Join(f, ",")
+		}
+		ext := extent(ns)
+		kind := "404"
+		if g.r.Bool() {
+			kind = fmt.Sprintf("cut.%d", g.r.Intn(20))
+		}
+		opRf(ext+int64(g.r.Intn(4)), []int{0, 238}[g.r.Intn(2)], 2+g.r.Intn(2), kind, faulty, g.randWins(8, ext), g.randWins(5, ext), ns)
+	}
+	if a.Thorough() {
+		// a persistent 5xx: the client retries for ~13 s, then the read must fail; single view, so no prefetch is pending at recovery
+		opRf(6, 238, 3, "500", "1", "0+6", "0+6_2+3", []*node{{off: 0, size: 6, mtime: 1, vid: 3, key: 7, cookie: 1}})
+	}
+
 	// ---- sparse files through StreamContent
 	for i := 0; i < a.N(15); i++ {
 		ns := g.randList(1+g.r.Intn(5), 30, 8, false)
@@ -818,6 +996,8 @@ func replay(ops [][]string) {
 			opRd(pi(op[1]), int(pi(op[2])), int(pi(op[3])), op[4], parseNodes(op[5:]))
 		case "tie":
 			opTie(parseNodes(op[1:]))
+		case "rf":
+			opRf(pi(op[1]), int(pi(op[2])), int(pi(op[3])), op[4], op[5], op[6], op[7], parseNodes(op[8:]))
 		case "cp":
 			opCp(parseNodes(op[1:]))
 		case "sc":
